@@ -143,6 +143,7 @@ type world struct {
 	submitted  []string          // C12: request ids in submission order
 	stepNo     int
 	submitStep map[string]int // step at which a request was submitted
+	finishedAt map[string]int // C07: step at which a task was first seen completed / timed out in the database
 	doneStep   map[string]int // C01: step at which a promise was first observed completed
 }
 
@@ -506,7 +507,7 @@ func newWorld(path string, cfg Cfg, bg bool) (*world, error) {
 		return nil, err
 	}
 	boot.Close()
-	w := &world{cfg: cfg, bg: bg, path: path, seen: map[string]M{}, submitAt: map[string]int64{}, leases: map[string]*lease{}, lockLeases: map[string]*lease{}, claimed: map[string]bool{}, submitStep: map[string]int{}, doneStep: map[string]int{}, respN: map[string]int{}, lost: map[string]bool{}}
+	w := &world{cfg: cfg, bg: bg, path: path, seen: map[string]M{}, submitAt: map[string]int64{}, leases: map[string]*lease{}, lockLeases: map[string]*lease{}, claimed: map[string]bool{}, submitStep: map[string]int{}, finishedAt: map[string]int{}, doneStep: map[string]int{}, respN: map[string]int{}, lost: map[string]bool{}}
 	w.rdb, err = sql.Open("sqlite3", path)
 	if err != nil {
 		return nil, err
@@ -735,6 +736,16 @@ func respMonitor(w *world, reqs map[string]M, tid string, resp map[string]any, t
 						return pid, "", fmt.Sprintf("%s response (status %d) reports promise %v as completed with %s=%v while the store holds it completed with %s=%v (stored state %d, reported state %d)", kind, num(resp["status"]), p["id"], f, pv[f], f, rowv[f], num(row["state"]), num(p["state"]))
 					}
 				}
+			}
+		}
+	}
+	if monitors["C07"] && kind == "CompleteTask" {
+		// "a completion of an already finished task is merely acknowledged": a task that was finished in the database
+		// before this request was even submitted is finished at every read of this request
+		c, _ := reqs[tid]["c"].(map[string]any)
+		if fa, ok := w.finishedAt[fmt.Sprint(c["id"])]; ok && fa < w.submitStep[tid] {
+			if st := num(resp["status"]); st != 20000 && st < 50000 && st > 0 {
+				return "C07", "", fmt.Sprintf("completion of task %v (request counter %v), which was finished before the request was submitted, answered %d instead of being acknowledged (200)", c["id"], c["counter"], st)
 			}
 		}
 	}
@@ -1018,6 +1029,15 @@ func (r *runner) apply(w *world, st Step) (M, bool) {
 				}
 				if what := w.c07Leases(r.counts, r.reqs, st.Items, pv, cur, r.now); what != "" {
 					return M{"what": "property monitor failed on the implementation", "property": "C07", "diff": what, "property_violation": true, "step": st}, false
+				}
+			}
+			if ts, _ := cur["tasks"].([]any); monitors["C07"] {
+				for _, x := range ts {
+					if row, _ := x.(map[string]any); row != nil && (jnum(row["state"]) == 8 || jnum(row["state"]) == 16) {
+						if _, seen := w.finishedAt[fmt.Sprint(row["id"])]; !seen {
+							w.finishedAt[fmt.Sprint(row["id"])] = w.stepNo
+						}
+					}
 				}
 			}
 			w.prev = cur
@@ -1434,6 +1454,57 @@ func (r *runner) generate(g *gen.G, cfg Cfg, bg bool, o genOpts) ([]Step, int, M
 			rq.CreatePromise = &t_api.CreatePromiseRequest{Id: id, Timeout: now + 100000, Tags: map[string]string{}}
 		}); info != nil {
 			return info, pred
+		}
+		if g.R.Intn(2) == 0 {
+			// a registration racing with the completion: the registration reads the promise (pending), the completion is
+			// written, then the registration's insert runs (no row: the promise is no longer pending) and its re-read
+			// succeeds or fails; all in dispatch order per request
+			execTid := func(tid string, mode string) (M, bool) {
+				items := []Item{}
+				for _, h := range w.aio.pending {
+					if h.sqe.Submission.Kind == t_aio.Store && h.tid == tid {
+						items = append(items, Item{Tid: h.tid, Seq: h.seq, Mode: mode})
+					}
+				}
+				if len(items) == 0 {
+					return nil, false
+				}
+				return do(Step{Op: "exec", Items: items})
+			}
+			tickNow := func() (M, bool) { now++; return do(Step{Op: "tick", T: now}) }
+			nreq++
+			rtid := fmt.Sprintf("r%d", nreq)
+			rq := &t_api.Request{Kind: t_api.CreateSubscription, Tags: map[string]string{"id": rtid, "name": "CreateSubscription", "protocol": "dst"}}
+			rq.CreateSubscription = &t_api.CreateSubscriptionRequest{Id: "race" + fmt.Sprint(nreq), PromiseId: id, Timeout: now + 100000, Recv: []byte(`"default"`)}
+			if g.R.Intn(2) == 0 {
+				rq = &t_api.Request{Kind: t_api.CreateCallback, Tags: map[string]string{"id": rtid, "name": "CreateCallback", "protocol": "dst"}}
+				rq.CreateCallback = &t_api.CreateCallbackRequest{PromiseId: id, RootPromiseId: "race-" + id, Timeout: now + 100000, Recv: []byte(`"default"`)}
+			}
+			nreq++
+			ctid := fmt.Sprintf("r%d", nreq)
+			cq := &t_api.Request{Kind: t_api.CompletePromise, Tags: map[string]string{"id": ctid, "name": "CompletePromise", "protocol": "dst"}}
+			cq.CompletePromise = &t_api.CompletePromiseRequest{Id: id, State: promise.Resolved}
+			seq := []func() (M, bool){
+				func() (M, bool) { return do(Step{Op: "submit", Tid: rtid, Req: canon.Req(rq)}) },
+				tickNow,
+				func() (M, bool) { return execTid(rtid, "ok") }, // the registration's read: pending
+				func() (M, bool) { return do(Step{Op: "submit", Tid: ctid, Req: canon.Req(cq)}) },
+				tickNow,                                           // registration dispatches its insert, completion its read
+				func() (M, bool) { return execTid(ctid, "ok") },
+				tickNow,
+				func() (M, bool) { return execTid(ctid, "ok") }, // the completion block
+				tickNow,
+				func() (M, bool) { return execTid(rtid, "ok") }, // the insert: 0 rows
+				tickNow,
+				func() (M, bool) { return execTid(rtid, []string{"ok", "before", "after"}[g.R.Intn(3)]) }, // the re-read
+				tickNow,
+			}
+			for _, f := range seq {
+				if info, pred := f(); info != nil {
+					return info, pred
+				}
+			}
+			return settle(3, 1)
 		}
 		if info, pred := submit(t_api.CreateCallback, func(rq *t_api.Request) {
 			rq.CreateCallback = &t_api.CreateCallbackRequest{PromiseId: id, RootPromiseId: "root-" + id, Timeout: now + 100000, Recv: []byte(`"default"`)}
